@@ -150,6 +150,19 @@ def handlePos : List String → Ans
         let sp := mvs.foldl (fun (o : Option Position) m => o.bind (fun x => if x.legal m then some (x.apply m) else none)) (some (abs b))
         ((match mb with | some x => showMoves x.legalsList | none => "refused"),
          (match sp with | some x => showMoves x.legalMoves | none => "refused"))
+  -- `status.after <pos64> <mv>`: check / mate / draw status of the successor; the specification classifies the successor
+  -- the RULES prescribe (its clock included), not the one the implementation reports
+  | ["status.after", p, m] => withPos p fun b =>
+      match parseMove m with
+      | some mv =>
+        ((match b.moveNew mv with
+          | some x => s!"incheck={showBool x.inCheck} state={showState x.state}"
+          | none => "refused"),
+         if (abs b).legal mv then
+           let q := (abs b).apply mv
+           s!"incheck={showBool (q.inCheck q.turn)} state={showStatus q.classify}"
+         else "refused")
+      | none => bad
   | ["islegal", p, m] => withPos p fun b =>
       match parseMove m with
       | some mv => (showBool (b.isLegal mv), showBool ((abs b).legal mv))
